@@ -1,7 +1,8 @@
 (* C09 at source level: Rc4::pseudo_random_generation and Rc4::apply_keystream as TRANSLATED FROM
    src/rc4.rs on this run (the key schedule and the HMAC key derivation are covered by the model-level
    theorems, the layout obligation and the constants). *)
-From WS Require Import lib.Bytes lib.Res lib.StepLoop Consts Steps spec.Rc4 model.Rc4 proofs.Rc4 proofs.steps.Rc4.
+From WS Require Import lib.Bytes lib.Res lib.Hmac lib.StepLoop Consts Steps spec.Rc4 model.Rc4 proofs.Rc4 proofs.steps.Rc4
+  proofs.Wrath proofs.steps.Ctors.
 Local Open Scope N_scope.
 
 (* from the state the key schedule produces for a non-empty key, the translated keystream loop yields
@@ -18,5 +19,47 @@ Theorem C09_source_is_model : forall data r,
   slice_loop tr_rc4_apply_keystream_step (rc4_triple r) data = ks_view (apply_keystream r data).
 Proof. exact rc4_apply_keystream_translated. Qed.
 
+(* the whole key-setup path as translated (InnerCrypto::new: HMAC-SHA1 keyed by the direction constant
+   over the session key, Rc4::new with its key schedule, 1024 keystream bytes dropped): for EVERY session
+   key and direction constant the translated constructor succeeds, and the translated keystream loop run
+   from its state outputs  data xor RC4(HMAC-SHA1(constant, K)) bytes 1024 .. 1024+|data| *)
+Theorem C09_source_key_setup : forall K dk data, exists t0 t1,
+  tr_wrath_inner_new K dk = Some t0 /\
+  slice_loop tr_rc4_apply_keystream_step t0 data = Some (t1, rc4_crypt (hmac_sha1 dk K) 1024 data).
+Proof.
+  intros K dk data. destruct (inner_new_spec K dk) as (E & _ & _ & _ & Hs).
+  exists (rc4_triple (inner_state K dk)), (rc4_triple (adv (inner_state K dk) (length data))). split.
+  - rewrite wrath_inner_new_translated, E. reflexivity.
+  - rewrite rc4_apply_keystream_translated, Hs. reflexivity.
+Qed.
+
+(* the four translated half constructors start from those states: client-encrypt / server-decrypt from
+   the S state, server-encrypt / client-decrypt from the R state, with zeroed header buffers *)
+Theorem C09_source_halves : forall K, exists tS tR,
+  tr_wrath_inner_new K wrath_S = Some tS /\ tr_wrath_inner_new K wrath_R = Some tR /\
+  tr_wrath_client_enc_new K = Some tS /\ tr_wrath_server_dec_new K = Some tS /\
+  tr_wrath_server_enc_new K = Some (tR, [0;0;0;0;0]) /\ tr_wrath_client_dec_new K = Some (tR, [0;0;0;0]) /\
+  tr_wrath_client_crypto_new K = Some ((tR, [0;0;0;0]), tS) /\
+  tr_wrath_server_crypto_new K = Some (tS, (tR, [0;0;0;0;0])).
+Proof.
+  intros K. exists (rc4_triple (inner_state K wrath_S)), (rc4_triple (inner_state K wrath_R)).
+  rewrite !wrath_inner_new_translated, wrath_client_enc_new_translated, wrath_server_dec_new_translated,
+    wrath_server_enc_new_translated, wrath_client_dec_new_translated, wrath_client_crypto_new_translated,
+    wrath_server_crypto_new_translated.
+  unfold model.Wrath.client_crypto_new, model.Wrath.server_crypto_new.
+  rewrite !inner_new_eq, client_enc_new_eq, server_dec_new_eq, server_enc_new_eq, client_dec_new_eq.
+  repeat split.
+Qed.
+
+(* Rc4::new as translated is the model's key schedule (and so never panics: C09_rc4_new_total) *)
+Theorem C09_source_rc4_new : forall key, exists r, rc4_new key = Ok r /\ tr_rc4_new key = Some (rc4_triple r).
+Proof.
+  intros key. destruct (rc4_new_ok key) as (r & E & _). exists r. split; [exact E|].
+  rewrite rc4_new_translated, E. reflexivity.
+Qed.
+
 Print Assumptions C09_source_stream.
+Print Assumptions C09_source_key_setup.
+Print Assumptions C09_source_halves.
+Print Assumptions C09_source_rc4_new.
 Print Assumptions C09_source_is_model.
